@@ -428,6 +428,12 @@ Section LineSearch.
   Definition linesearch_evals (maxEval : nat) : nat := ls_outer maxEval 0 1.   (* 1 = f(0.0) *)
 End LineSearch.
 
+(* ---- retry loops  for { if accept(s) { break }; s = shrink(s) }  : the rprop backtracking loop
+   (accept = the objective is valid at the trial point, shrink = step *= eta[1]) and the newton
+   constraint loop (shrink = t1 *= c) *)
+Definition retry_step {St} (accept : St -> bool) (shrink : St -> St) (s : St) : St + St :=
+  if accept s then inr s else inl (shrink s).
+
 (* ---- for !constraints(alpha_j) { alpha_j *= 0.5 }  (lineSearch) over a carrier *)
 Section LsConstraints.
   Context {A : Type} (N : Num A).
@@ -499,6 +505,17 @@ Section Exact.
   Definition qr_block_step (eps : A) (h : blk) : blk + blk :=
     if leb N (nabs N (b21 h)) (eps * (nabs N (b11 h) + nabs N (b22 h)))
     then inr (mkblk (b11 h) (b12 h) (zero N) (b22 h)) else inl (qrstep2 h).
+
+  (* qrAlgorithm.Run on a 2x2 matrix: Hessenberg reduction and the Francis loop do nothing but the
+     deflation test (splitMatrix gives q = 2 at once); then the block loop, unless the sub-diagonal
+     entry is zero or the eigenvalues are complex. *)
+  Definition four : A := (one N + one N) * (one N + one N).
+  Definition qr_run2 (eps : A) (fuel : nat) (h : blk) : lres blk blk :=
+    let h1 := if leb N (nabs N (b21 h)) (eps * (nabs N (b11 h) + nabs N (b22 h)))
+              then mkblk (b11 h) (b12 h) (zero N) (b22 h) else h in
+    if eqb N (b21 h1) (zero N) then Done h1 0
+    else if ltb N ((b11 h1 - b22 h1) * (b11 h1 - b22 h1) + four * b12 h1 * b21 h1) (zero N) then Done h1 0
+    else uncapped (qr_block_step eps) fuel 0 h1.
 
   (* Denman–Beavers mSqrt on a 1x1 matrix [a]: state (Y0, Y1, Z0, Z1); the inverse of a
      1x1 matrix is 1/x (Gauss-Jordan), a zero pivot ends the run with an error. *)
